@@ -576,6 +576,12 @@ class SAMIWriter(BaseWriter):
             elif node.type_ == CaptionNode.STYLE:
                 line = self._recreate_line_style(line, node)
 
+        if self.open_span:
+            # a style that is never ended still has to be closed here: it
+            # must not leak into the next caption or the next write()
+            line = line.rstrip() + '</span>'
+            self.open_span = False
+
         return line.rstrip()
 
     def _recreate_line_style(self, line, node):
